@@ -8,4 +8,7 @@ MCOrders == {"LE", "BE"}
 \* the Unreal 2 string operation has its own small universe: length bytes 0..3 and 128..130, an escape, control codes
 U2Alphabet == {0, 1, 2, 3, 27, 65, 129, 130}
 U2Ops == {[op |-> "u2str"], [op |-> "u8"], [op |-> "remaining"]}
+\* thorough: six-byte packets (an escape, its three components and a character after them fit), one byte order
+U2AlphabetT == {0, 1, 5, 27, 65, 130}
+LEOnly == {"LE"}
 =============================================================================
